@@ -22,7 +22,107 @@ OBLIGATIONS = [
     (P + "lru_move_to_front", "every operation puts the entry it uses at the LRU front and keeps the order of all others"),
     (P + "lru_is_recency_order", "a used after b's last store/fetch => a stands before b in lru whenever both are held"),
     (P + "stats_match_history", "stats = (number of held keys, total number of entry-trigger links) after every history"),
+    (P + "buddy_init_normal", "buddy allocator: the constructed arena is in coalesced normal form"),
+    (P + "buddy_step_normal", "buddy allocator: malloc and free keep the normal form (no two free buddies side by side), whichever block is chosen"),
+    (P + "buddy_used_after_alloc", "buddy allocator: malloc adds exactly its block to the blocks in use"),
+    (P + "buddy_used_after_free", "buddy allocator: free removes exactly the freed block"),
+    (P + "free_all_restores", "buddy allocator: after any malloc/free sequence with no block left in use the arena equals the freshly constructed one (fill, empty, refill indefinitely)"),
 ]
+
+
+def buddy_fails(c, bbin, lines):
+    """direct self-check on the real allocator: run the sequence (oracle annotations dropped), free what is left;
+    it must not crash / trip a sanitizer or an assertion, and the arena must be as constructed. Returns reason | None"""
+    plain = [" ".join(l.split()[:2]) for l in lines] + ["bfreeall"]
+    rc, out, err = c.run_lines(bbin, plain)
+    if rc != 0 or len(out) != len(plain):
+        tail = [x for x in err.splitlines() if x.strip()]
+        return "allocator aborted (sanitizer/assertion): " + " / ".join(tail[:3])[:400]
+    if not out[0].startswith("ok"):
+        return None
+    if out[-1].split("|", 1)[1] != out[0].split("|", 1)[1]:
+        return f"all blocks freed but the free lists are{out[-1].split('|', 1)[1]} instead of{out[0].split('|', 1)[1]}"
+    return None
+
+
+def buddy_stream(c, bbin, total, nops):
+    """drive the real allocator interactively (the generator must know the returned addresses to free them);
+    returns (annotated case lines, problems found by the direct self-check)"""
+    import subprocess
+    rng = c.rng
+    env = dict(os.environ, ASAN_OPTIONS="detect_leaks=0:abort_on_error=0")
+    p = subprocess.Popen([bbin], stdin=subprocess.PIPE, stdout=subprocess.PIPE, stderr=subprocess.PIPE, env=env, text=True, bufsize=1)
+    class Died(Exception):
+        pass
+    def ask(line):
+        try:
+            p.stdin.write(line + "\n"); p.stdin.flush()
+            r = p.stdout.readline().rstrip("\n")
+        except (BrokenPipeError, OSError):
+            r = ""
+        if not r:
+            raise Died()
+        return r
+    try:
+        return _buddy_stream(c, rng, ask, total, nops, p)
+    except Died:
+        p.kill()
+        return getattr(ask, "lines", []), ["allocator harness died: " + (p.stderr.read() or "")[-600:]]
+
+
+def _buddy_stream(c, rng, ask, total, nops, p):
+    ask.lines = []
+    lines, problems = ask.lines, []
+    first = ask(f"binit {total}")
+    lines.append(f"binit {total}")
+    if not first.startswith("ok"):
+        p.kill()
+        return lines, [f"binit {total}: {first}"]
+    usable = int(first.split()[1].split("=")[1])
+    init_dump = first.split("|", 1)[1]
+    live = []
+    phase, left = "fill", rng.randrange(5, 60)
+    for _ in range(nops):
+        if left <= 0:
+            phase = rng.choice(("fill", "drain", "mix", "empty"))
+            left = rng.randrange(5, 80)
+        left -= 1
+        do_free = live and (phase == "drain" and rng.random() < 0.8 or phase == "mix" and rng.random() < 0.5
+                            or phase == "empty" or phase == "fill" and rng.random() < 0.1)
+        if do_free:
+            off = live.pop(rng.randrange(len(live)))
+            lines.append(f"bfree {off}")
+            o = ask(f"bfree {off}")
+            if not o.startswith("ok"):
+                problems.append(f"bfree {off}: {o}")
+            if not live and o.split("|", 1)[1] != init_dump:
+                problems.append(f"all blocks freed but the free lists are{o.split('|', 1)[1]} instead of{init_dump}")
+        else:
+            if phase == "empty":
+                phase, left = "fill", rng.randrange(5, 60)
+            r = rng.random()
+            size = rng.randrange(0, 48) if r < 0.35 else rng.randrange(0, 600) if r < 0.7 else rng.randrange(0, max(1, usable // 8)) if r < 0.9 \
+                else rng.choice((usable, usable // 2, usable // 2 - 16, usable // 4 - 16, usable // 4 - 15, 2 * usable, 1 << rng.randrange(4, 20), (1 << rng.randrange(4, 20)) - 16))
+            lines.append(f"bmalloc {size}")
+            o = ask(f"bmalloc {size}")
+            w = o.split()
+            if w[0] == "at":
+                live.append(int(w[1]))
+                lines[-1] = f"bmalloc {size} at={w[1]}"
+            elif w[0] == "null":
+                lines[-1] = f"bmalloc {size} null"
+            else:
+                problems.append(f"bmalloc {size}: {o}")
+                break
+    # final: free everything, the arena must be as constructed
+    for off in live:
+        lines.append(f"bfree {off}"); o = ask(f"bfree {off}")
+    if live and o.split("|", 1)[1] != init_dump:
+        problems.append(f"all blocks freed but the free lists are{o.split('|', 1)[1]} instead of{init_dump}")
+    p.stdin.close(); p.wait(timeout=60)
+    if p.returncode != 0:
+        problems.append("allocator harness died: " + p.stderr.read()[-1500:])
+    return lines, problems
 
 
 def gen_streams(c):
@@ -99,13 +199,16 @@ def main():
     c.trusted += [
         "model, translator and harness of C07 (lean/Cppcms/C07/Model.lean, translate/c07.py, harness/c07.cpp)",
         "not_enough_memory() answers and bad_alloc outcomes are inputs of the model; for the memory-pressure streams they are fitted from the implementation's entry count after each store (minimal number of `true` answers)",
-        "buddy allocator / shmem_allocator are NOT modelled: memory release is checked on the real allocator only (fill/empty/refill cycles comparing shmem_control::available()/max_available())",
+        "translator translate/c08.py (buddy_allocator.h: alignment, block size formula, smallest order, header size on LP64, shape of page_alloc/free_page/get_buddy)",
+        "buddy allocator model (Buddy.lean) is a forest of binary trees; the allocator's choice of block (best fit, LIFO free lists, lowest address) is NOT modelled: the address it returns is an oracle input, the model checks it is a free region of the right order; get_buddy's xor = sibling and `buddy->bits == bits` = sibling is a free leaf are assumed and validated by comparing the free lists after every operation",
+        "that the containers living in the segment (basic_string, hash_map, list, multimap nodes) free everything of a removed entry is not modelled: checked on the real cache only (fill/empty/refill cycles comparing shmem_control::available()/max_available())",
     ]
     c.assumptions += [
         "allocation outcomes are arbitrary inputs (theorems hold for all of them)",
         "hash_map, std::list, std::multimap behave as finite maps / sequences",
     ]
     c.translate("c07.py")
+    c.translate("c08.py")
     proved = c.prove(["Cppcms.C08.Props"], OBLIGATIONS, exe="c08_model")
     if c.tier == "thorough" and proved:
         c.leanchecker(["Cppcms.C08.Props"])
@@ -186,7 +289,9 @@ def main():
                 return k is not None or bool(H.check_census(cand, raw, [0] * len(cand)))
             small = R.shrink(h, shm, fails) if fails(h) else h
             kk, v2, raw, mout, err = R.judge_history(small, shm, ko, jp)
-            c.violation(f"property predicate false on the implementation's answers: {verdict}",
+            cen = H.check_census(small, raw, [0] * len(small))
+            v3 = v2 if kk is not None else (cen[0][1] if cen else verdict)
+            c.violation(f"property predicate false on the implementation's answers: {v3}",
                         {"history": small, "shm": shm, "stream": name, "keys_oracle": ko, "failing_line": kk,
                          "impl_outputs": [x[:300] for x in raw], "model_outputs": [x[:300] for x in mout],
                          "original_length": len(h), "replay_cmd": "bin/check C08 --replay <this file>"})
@@ -198,7 +303,44 @@ def main():
                     f"{len(r['diffs'])} differing lines; first: `{cs[:200]}` impl=`{a[:200]}` model=`{b[:200]}`; "
                     f"minimal differing history: {json.dumps([x[:200] for x in small])} (shm={shm}, keys_oracle={ko})")
 
-    # memory release on the real allocator (no model: see design.d/C08.md)
+    # buddy allocator against its model (Buddy.lean): addresses chosen by the real allocator are oracle inputs
+    bbin = c.harness("c08", link_libs=False)
+    if bbin:
+        def report(name, lines, why):
+            small = R.shrink(lines, 0, lambda cand: buddy_fails(c, bbin, cand) is not None, budget=300) if buddy_fails(c, bbin, lines) else lines
+            c.violation("buddy allocator: " + (buddy_fails(c, bbin, small) or why),
+                        {"history": [" ".join(l.split()[:2]) for l in small] + ["bfreeall"], "stream": name, "original_length": len(lines),
+                         "note": "replay: .build/harness/c08 < history ; the arena must be as constructed after bfreeall"})
+        # corpus of allocator sequences (gen/corpus/C08/*.blk), run first
+        cdir = os.path.join(ROOT_, "gen", "corpus", "C08")
+        for f in sorted(os.listdir(cdir)) if os.path.isdir(cdir) else []:
+            if f.endswith(".blk"):
+                lines = [l.strip() for l in open(os.path.join(cdir, f)) if l.strip() and not l.startswith("#")]
+                why = buddy_fails(c, bbin, lines)
+                c.evaluations += len(lines)
+                c.log(f"buddy corpus {f}: {why or 'ok'}")
+                if why:
+                    report("corpus:" + f, lines, why)
+        totals = [1544, 544 + 4096, 70000, 524288] + ([1 << 20, 544 + 96, 3000000] if c.tier == "thorough" else [])
+        reported = 0
+        for total in totals:
+            for rep in range(6 if c.tier == "thorough" else 2):
+                lines, problems = buddy_stream(c, bbin, total, 3000 if c.tier == "thorough" else 700)
+                dist["buddy"] = dist.get("buddy", 0) + len(lines)
+                if problems:
+                    if reported < 2:
+                        report(f"buddy-{total}", lines, problems[0])
+                    reported += 1
+                    continue
+                out_i, out_m, diffs, crashed = c.correspond(f"buddy-{total}", lines, bbin, model,
+                                                            nontrivial=lambda cs, o: cs + "#" + o if not o.startswith("bad") else None)
+                if crashed:
+                    report(f"buddy-{total}", lines, "sanitizer abort")
+                elif diffs:
+                    k, cs, a, b = diffs[0]
+                    c.broke(f"correspondence stream buddy-{total}", f"{len(diffs)} differing lines; first at line {k}: `{cs}` impl=`{a[:300]}` model=`{b[:300]}`; history prefix: {json.dumps(lines[:k + 1][-30:])}")
+
+    # memory release through the cache on the real allocator
     rel = []
     for seg, cycles, per, vs in ((512 << 10, 40 if c.tier == "quick" else 400, 30, 2000), (2 << 20, 12 if c.tier == "quick" else 100, 200, 1500)):
         ok, msg, lines, out = release_check(c, R, hbin, seg, cycles, per, vs)
